@@ -25,7 +25,7 @@ for path in sorted(glob.glob(os.path.join(ROOT, "seeded", "*", "meta.json"))):
         if os.path.exists(target):
             continue
         os.makedirs(os.path.dirname(target), exist_ok=True)
-        json.dump({"stage": doc["stage"], "case": doc["case"],
+        json.dump({"stage": doc["stage"], "case": doc["case"], "shard": doc.get("shard", 0),
                    "note": f"failing case found for the seeded change {name} ({doc['clause']}); passes where the property holds"},
                   open(target, "w", encoding="utf-8"), ensure_ascii=False, indent=1)
         added += 1
